@@ -13,10 +13,20 @@ negative mean level (mirror of minima / maxima, equivariance, repeated calls on 
 that produce a fitted Weibull distribution (`Weibull.fromsignal`, `TimeSeries.fit_weibull`, `Weibull.fit(ts.maxima())`) on
 signals with zero / slightly / strongly negative and positive mean level: equivariance under x -> a*x+b of the SIGNAL,
 equality with the fit of the sample of global maxima, moment exactness, repeated calls on the same series / array.
+Fault points: histories contain REJECTED requests (unknown / non-string method name, wrong call signature, unusable sample,
+`fit_from_weibull_parameters` of GumbelMin) on the same object / the same module; the clauses are evaluated again on the
+steps that follow (a GumbelMin object re-fitted on the sample it holds must still describe the sample of its last accepted
+request).  First use / shared state: before anything else is fitted in the process, samples of sizes not used anywhere else
+are fitted FIRST in an integer / list representation (then as float64, then a second float sample of the same size), with
+exact quantile samples (recovery clause) and random samples (equivariance, flat equality, mirror), method names spelled
+positionally / by keyword / as numpy strings.  Every history / first-use case runs in a worker thread with a time limit: a
+request that does not return is a failing clause.
 """
 import contextlib
 import io
 import math
+import sys
+import threading
 
 import numpy as np
 
@@ -38,7 +48,14 @@ RULE = ("seeded samples (n in 8..400) drawn from Weibull / Gumbel / GumbelMin wi
         "sums of 40 cosines or smoothed noise, 1500-6000 points, mean level 0, +-0.1..3, +-60 standard deviations, float64 array / "
         "strided view / read-only array, optional time window) through Weibull.fromsignal / TimeSeries.fit_weibull / "
         "Weibull.fit(ts.maxima()) with methods msm, pwm (pwm2 when all global maxima are positive), shifts b that move the "
-        "mean level below / across / above zero; corpus cases first; "
+        "mean level below / across / above zero; rejected requests (method names 'pwm'/'pwm2'/'lsq'/''/'m s m', method=None / 3, "
+        "too many positional arguments, misspelled keyword, empty / string / None sample, constant sample for the Weibull msm, "
+        "GumbelMin.fit_from_weibull_parameters) inserted into every history, each followed by accepted requests (GumbelMin: a re-fit "
+        "on the sample the object holds); first-use cases at the start of the run (sample sizes 64..900 drawn without "
+        "replacement and different from every size used later: 8,20,50,120,400,10^4; representation int64 / int32 / int16 / "
+        "list of ints / list of floats / float64 fitted before or after the float64 spelling; exact quantile samples in units "
+        "of scale/1000, n >= 300, or random samples in units of scale/8; a second float64 sample of the same size afterwards); "
+        "corpus cases first; "
         "non-trivial = every sample (all have distinct values); distinct by (distribution, parameters, n, seed)")
 
 
@@ -69,7 +86,33 @@ def qmods():
 def make_sample(Q, info):
     cls = Q["cls"][info["dist"]]
     d = cls(info["loc"], info["scale"], info.get("shape", 2.0)) if info["dist"] == "wb" else cls(info["loc"], info["scale"])
+    if info.get("exact"):         # the n quantiles at the plotting positions (i+0.5)/n, in an order fixed by the seed
+        n = info["n"]
+        x = np.asarray(d.invcdf(p=(np.arange(n) + 0.5) / n), dtype=float)
+        return x[np.random.RandomState(info["seed"]).permutation(n)]
     return d.rnd(size=info["n"], seed=info["seed"])
+
+
+def run_limited(fn, limit):
+    """run fn() in a worker thread; returns (finished, value-or-exception).  A call that hangs (e.g. on a lock that an
+    earlier failed request did not release) must not hang the check."""
+    box = {}
+    saved = sys.stdout
+
+    def work():
+        try:
+            box["v"] = fn()
+        except BaseException as e:                                 # noqa
+            box["e"] = e
+    th = threading.Thread(target=work, daemon=True)
+    th.start()
+    th.join(limit)
+    if th.is_alive():
+        sys.stdout = saved                                         # the stuck thread may sit inside a redirect_stdout block
+        return False, None
+    if "e" in box:
+        raise box["e"]
+    return True, box.get("v")
 
 
 METHODS = {"wb": ("msm", "pwm", "pwm2"), "gu": ("msm", "pwm", "lse", "mle"), "gm": ("msm", "lse", "mle")}
@@ -80,18 +123,30 @@ def layout(kind, name):
     return ("scale", "shape") if name == "pwm2" else ("loc", "scale", "shape") if kind == "wb" else ("loc", "scale")
 
 
-def fit_via(Q, kind, name, data, entry):
+def fit_via(Q, kind, name, data, entry, spelling=None):
     """one fit through the module-level estimator or through the class (`Weibull.fit`, `Gumbel.fit`, `GumbelMin().fit`);
-    returns the parameters in the order of layout(kind, name)"""
+    returns the parameters in the order of layout(kind, name).  `spelling`: the same request written differently
+    ("positional": fit(data, name); "keyword": fit(data=..., method=...) / estimator(x=...); "np.str_": the method name as
+    a numpy string)"""
     with np.errstate(all="ignore"):
         if entry == "module":
-            return tuple(float(v) for v in getattr(Q["mod"][kind], name)(data))
+            f = getattr(Q["mod"][kind], name)
+            return tuple(float(v) for v in (f(x=data) if spelling == "keyword" else f(data)))
+        mname = np.str_(name) if spelling == "np.str_" else name
         if kind == "gm":
             g = Q["cls"]["gm"]()
             with contextlib.redirect_stdout(io.StringIO()):    # GumbelMin.fit prints when the estimator raises TypeError
-                g.fit(data=data, method=name)
+                if spelling == "positional":
+                    g.fit(data, mname)
+                else:
+                    g.fit(data=data, method=mname)
             return float(g.location), float(g.scale)
-        o = Q["cls"][kind].fit(data, method=name)
+        if spelling == "positional":
+            o = Q["cls"][kind].fit(data, mname)
+        elif spelling == "keyword":
+            o = Q["cls"][kind].fit(data=data, method=mname)
+        else:
+            o = Q["cls"][kind].fit(data, method=mname)
         p = tuple(float(v) for v in o.params)
         return p[1:] if name == "pwm2" else p
 
@@ -121,6 +176,8 @@ def same_fit(kind, name, exp, got, tol):
 def container_of(lab, v):
     if lab in ("int64", "int32", "int16"):
         return np.asarray(v).astype(lab)
+    if lab == "float64":
+        return np.array(v, dtype=float)
     if lab == "list-int":
         return [int(t) for t in v]
     if lab == "list-float":
@@ -210,6 +267,55 @@ def eval_container(Q, inp):
     return out
 
 
+GM_REJECTS_WITH_DATA = ("unknown-method", "method-not-a-string", "too-many-arguments", "misspelled-keyword")
+GM_REJECTS = GM_REJECTS_WITH_DATA + ("unknown-method-no-data", "fit-from-weibull-parameters")
+STATELESS_REJECTS = ("unknown-method", "method-not-a-string", "too-many-arguments", "misspelled-keyword", "empty-sample",
+                     "string-sample", "none-sample")
+# names no estimator table of the distribution contains, whatever the letter case.  Upper-case spellings of VALID names are
+# deliberately not in the pool: on the unchanged tree the entry points test `method.lower()` but look up `options[method]`,
+# so `GumbelMin().fit(y, method="MSM")` passes the name test, stores y and then fails with KeyError (reported as a defect of
+# qats; it is not a rejected request in the sense used here).
+BAD_NAMES = {"wb": ("lsq", "pwm3", "", "m s m", "moments"), "gu": ("pwm2", "lsq", "", "m s m", "moments"),
+             "gm": ("pwm", "pwm2", "lsq", "", "m s m")}
+
+
+def do_reject(Q, kind, g, st, y):
+    """issue one request that the entry point must reject; `y` is the sample handed over with it (never the current one).
+    Returns True when the request raised.  GumbelMin: on the object g of the history; Weibull / Gumbel: class or module."""
+    why, bad = st["why"], st.get("bad")
+    badm = None if bad == "<None>" else 3 if bad == "<3>" else bad
+    if why not in GM_REJECTS + STATELESS_REJECTS + ("constant-sample",):
+        raise ValueError("unknown kind of rejected request: %r" % (why,))
+    with np.errstate(all="ignore"), contextlib.redirect_stdout(io.StringIO()):
+        try:
+            if kind == "gm":
+                if why in ("unknown-method", "method-not-a-string"):
+                    g.fit(data=y, method=badm)
+                elif why == "unknown-method-no-data":
+                    g.fit(method=badm)
+                elif why == "too-many-arguments":
+                    g.fit(y, st["method"], False, None)
+                elif why == "misspelled-keyword":
+                    g.fit(data=y, metod=st["method"])
+                else:
+                    g.fit_from_weibull_parameters(float(np.min(y)) - 1.0, float(np.std(y)), 2.0, int(np.size(y)))
+            else:
+                cls, f = Q["cls"][kind], getattr(Q["mod"][kind], st["method"])
+                if why in ("unknown-method", "method-not-a-string"):
+                    cls.fit(y, method=badm)
+                elif why == "too-many-arguments":
+                    cls.fit(y, st["method"], False, None) if st.get("entry") == "class" else f(y, None)
+                elif why == "misspelled-keyword":
+                    cls.fit(y, metod=st["method"]) if st.get("entry") == "class" else f(data=y)
+                else:
+                    smp = {"empty-sample": np.array([], dtype=float), "string-sample": np.array(["a", "b", "c", "d", "e"]),
+                           "none-sample": None, "constant-sample": np.full(np.size(y), float(np.mean(y)))}[why]
+                    cls.fit(smp, method=st["method"]) if st.get("entry") == "class" else f(smp)
+        except Exception:                                         # noqa
+            return True
+    return False
+
+
 def eval_history(Q, inp):
     """a sequence of fits: on ONE GumbelMin object (sample passed to the constructor / to fit / assigned to .data, fitted again
     with the same or another method), or a sequence of Weibull.fit / Gumbel.fit / module-level calls.  After every step the
@@ -219,10 +325,23 @@ def eval_history(Q, inp):
     x = make_sample(Q, inp)
     out, base, kept = [], {}, []
     g = None
+    after_reject = ""
     for i, st in enumerate(inp["steps"]):
         name, a, b, via = st["method"], st["a"], st["b"], st["via"]
         tol = tol_of(name)
         y = a * x + b
+        if via == "reject":
+            # a request the entry point rejects (it raises): nothing is fitted, the sample of the object (GumbelMin) is the
+            # one of its last accepted request; the steps that follow are judged exactly as before
+            if kind == "gm" and g is None:
+                g = Q["cls"]["gm"]()
+            raised = do_reject(Q, kind, g, st, y)
+            if raised:
+                after_reject = "; after the rejected request of step %d (%s)" % (i, st["why"])
+                continue
+            if kind == "gm" and st["why"] in GM_REJECTS_WITH_DATA:
+                break                                             # the request was accepted: the object holds another sample now
+            continue
         try:
             fresh = fit_via(Q, kind, name, np.array(y), "class")
         except Exception:
@@ -267,8 +386,8 @@ def eval_history(Q, inp):
             r = a / a0
             exp = transformed(kind, name, p0, r, b - r * b0)
             if not same_fit(kind, name, exp, got, tol):
-                out.append(("step %d: fit(a*x+b) == (a*loc+b, a*scale[, shape]) for method %s (%s; earlier fits in the same history)"
-                            % (i, name, "same GumbelMin object, sample via " + via if kind == "gm" else via + " entry"),
+                out.append(("step %d: fit(a*x+b) == (a*loc+b, a*scale[, shape]) for method %s (%s; earlier fits in the same history%s)"
+                            % (i, name, "same GumbelMin object, sample via " + via if kind == "gm" else via + " entry", after_reject),
                             list(exp), list(got)))
         if kind in ("gu", "gm") and name in ("msm", "lse", "mle"):
             try:
@@ -278,15 +397,167 @@ def eval_history(Q, inp):
             if other is not None:
                 exp = (-other[0], other[1])
                 if not same_fit(kind, name, exp, got, 1e-9 if name == "msm" else tol):
-                    out.append(("step %d: the %s fit of the current sample is the mirror of the %s fit of the negated sample (%s, %s)"
+                    out.append(("step %d: the %s fit of the current sample is the mirror of the %s fit of the negated sample (%s, %s%s)"
                                 % (i, "GumbelMin" if kind == "gm" else "Gumbel", "Gumbel" if kind == "gm" else "GumbelMin", name,
-                                   "same object, sample via " + via if kind == "gm" else via + " entry"), list(exp), list(got)))
+                                   "same object, sample via " + via if kind == "gm" else via + " entry", after_reject),
+                                list(exp), list(got)))
+        if name == "msm" and kind in ("gu", "gm") and all(math.isfinite(t) for t in got) and got[1] > 0:
+            # the method of moments reproduces mean and standard deviation of the CURRENT sample (for a re-used GumbelMin
+            # object: the sample of its last accepted request)
+            d = Q["cls"][kind](got[0], got[1])
+            m, sd = float(np.mean(y)), float(np.std(y, ddof=1))
+            if not (abs(float(d.mean) - m) <= 1e-9 * (abs(m) + sd) and close(float(d.std), sd, 1e-9)):
+                out.append(("step %d: msm reproduces mean and standard deviation of the current sample (%s%s)"
+                            % (i, "same GumbelMin object, sample via " + via if kind == "gm" else via + " entry", after_reject),
+                            [m, sd], [float(d.mean), float(d.std)]))
     for i, name, o, p in kept:
         now = tuple(float(t) for t in o.params)
         if now != p:
             out.append(("the object returned by step %d (%s) keeps its parameters when other samples are fitted later" % (i, name),
                         list(p), list(now)))
     return out
+
+
+def recovered(kind, name, truth, est):
+    """the recovery clause (a measurement): parameters of a sample that follows the distribution exactly, n >= 300, are
+    recovered within 10 % of the scale (location: of scale + 0.1 |location|; shape: 10 %); measured worst case on the
+    unchanged tree for n >= 300: 5 % (Weibull msm), < 1 % for the other methods"""
+    lay = layout(kind, name)
+    if len(est) != len(truth) or not all(math.isfinite(v) for v in est):
+        return False
+    sc = abs(truth[lay.index("scale")])
+    for c, t, e in zip(lay, truth, est):
+        lim = 0.1 * (sc + 0.1 * abs(t)) if c == "loc" else 0.1 * sc if c == "scale" else 0.1 * abs(t)
+        if not abs(e - t) <= lim:
+            return False
+    return True
+
+
+def eval_firstuse(Q, inp):
+    """first use of a sample size in the process / second objects: the sample is fitted FIRST in the given representation
+    (integer dtype, list, float64) -- or first as flat float64 (`order`) --, then in the other one; then a*x+b; then a second,
+    unrelated float64 sample of the same size and its affine image.  Clauses: flat equality fit(1*x+0) == fit(x),
+    equivariance, minima mirror maxima, recovery of the parameters when the sample follows the distribution exactly (values
+    in units of scale/1000), the caller's sample is left unchanged.  Returns [(oracle, expected, observed)], None when a
+    random sample is outside the estimator's domain."""
+    kind, name, lab, entry, sp = inp["dist"], inp["method"], inp["container"], inp["entry"], inp.get("spelling")
+    x = make_sample(Q, inp)
+    unit = inp.get("quantum") or 1.0
+    v = np.round(x / unit) if inp.get("quantum") else x
+    c = container_of(lab, v)
+    keep = np.array(c)
+    flat = np.array(c, dtype=float).ravel()
+    out, tol = [], tol_of(name)
+    how = "%s, %s entry%s" % (name, entry, ", method name / arguments spelled %s" % sp if sp else "")
+
+    def fin(p_):
+        return isinstance(p_, tuple) and all(math.isfinite(t) for t in p_)
+
+    def attempt(data, spelling=None):
+        try:
+            return fit_via(Q, kind, name, data, entry, spelling)
+        except Exception as e:                                    # noqa
+            return "%s: %s" % (type(e).__name__, e)
+    ref = attempt(flat) if inp.get("order") == "float-first" else None
+    got = attempt(c, sp)
+    if ref is None:
+        ref = attempt(flat)
+    if inp.get("exact"):
+        truth = tuple(inp[k] / unit if k != "shape" else inp[k] for k in layout(kind, name))
+        given_first = inp.get("order") != "float-first"
+        for what, est, first in (("given as %s" % lab, got, given_first), ("given as flat float64 array", ref, not given_first)):
+            if isinstance(est, str) or not recovered(kind, name, truth, est):
+                out.append(("every method recovers the parameters of a large sample that follows the distribution exactly (%d "
+                            "quantiles in units of scale/1000, %s, fitted %s; %s; within 10 %%)"
+                            % (inp["n"], what, "first" if first else "second", how),
+                            list(truth), est if isinstance(est, str) else list(est)))
+    elif not fin(got) and not fin(ref):
+        return None
+    if isinstance(got, str) or isinstance(ref, str):
+        if isinstance(got, str) != isinstance(ref, str):
+            out.append(("fit(1*x+0) == fit(x): sample given as %s is fitted like the same values as float64 array (%s)" % (lab, how),
+                        ref if isinstance(ref, str) else list(ref), got if isinstance(got, str) else list(got)))
+        return out
+    if fin(ref) != fin(got) or (fin(ref) and not same_fit(kind, name, ref, got, tol)):
+        out.append(("fit(1*x+0) == fit(x): sample given as %s is fitted like the same values as float64 array (%s; the %s "
+                    "spelling fitted first, first sample of size %d in the process)"
+                    % (lab, how, "float64" if inp.get("order") == "float-first" else lab, inp["n"]), list(ref), list(got)))
+    if fin(got):
+        a, b = inp["a"], inp["b"]
+        q = attempt(a * np.asarray(c) + b)
+        exp = transformed(kind, name, got, a, b)
+        if isinstance(q, str) or not same_fit(kind, name, exp, q, tol):
+            out.append(("fit(a*x+b) == (a*loc+b, a*scale[, shape]) for method %s, x given as %s (fitted as the first sample of size "
+                        "%d in the process; %s entry)" % (name, lab, inp["n"], entry), list(exp), q if isinstance(q, str) else list(q)))
+        if kind in ("gu", "gm") and name in ("msm", "lse", "mle"):
+            okind = "gu" if kind == "gm" else "gm"
+            try:
+                other = fit_via(Q, okind, name, negated(c), entry)
+            except Exception:                                     # noqa
+                other = None
+            if fin(other):
+                exp = (-other[0], other[1])
+                mtol = 1e-9 if name == "msm" else 5e-4 if inp.get("quantum") else tol
+                if not same_fit(kind, name, exp, got, mtol):
+                    out.append(("the %s fit of the sample is the mirror of the %s fit of the negated sample (%s, both given as %s)"
+                                % ("GumbelMin" if kind == "gm" else "Gumbel", "Gumbel" if kind == "gm" else "GumbelMin", how, lab),
+                                list(exp), list(got)))
+    # a second, unrelated float64 sample of the same size (second object / second call)
+    sec = inp.get("second")
+    if sec:
+        info2 = dict(sec, dist=kind, n=inp["n"])
+        z = make_sample(Q, info2)
+        p2 = attempt(np.array(z))
+        if sec.get("exact"):
+            truth = tuple(sec[k] for k in layout(kind, name))
+            if isinstance(p2, str) or not recovered(kind, name, truth, p2):
+                out.append(("every method recovers the parameters of a large sample that follows the distribution exactly (%d "
+                            "quantiles, float64, fitted after a sample of the same size given as %s; %s; within 10 %%)"
+                            % (inp["n"], lab, how), list(truth), p2 if isinstance(p2, str) else list(p2)))
+        if fin(p2):
+            q2 = attempt(sec["a"] * z + sec["b"])
+            exp = transformed(kind, name, p2, sec["a"], sec["b"])
+            if isinstance(q2, str) or not same_fit(kind, name, exp, q2, tol):
+                out.append(("fit(a*x+b) == (a*loc+b, a*scale[, shape]) for method %s, float64 sample fitted after a sample of the "
+                            "same size (%d) given as %s (%s entry)" % (name, inp["n"], lab, entry), list(exp),
+                            q2 if isinstance(q2, str) else list(q2)))
+    now = np.array(c)
+    if now.shape != keep.shape or not np.array_equal(now, keep):
+        out.append(("fitting leaves the caller's sample unchanged (given as %s)" % lab, "unchanged", "modified"))
+    return out
+
+
+FIRST_LABS_EXACT = ("int64", "list-int", "int32", "float64", "int64", "list-float")
+FIRST_LABS_RANDOM = ("int32", "int64", "list-int", "int16", "tuple-float", "float64")
+SPELLINGS = (None, "positional", "keyword", "np.str_")
+
+
+def gen_firstuse(rng, sizes, kind, name, j):
+    """one first-use case for (distribution, method); j rotates representation / order / spelling"""
+    exact = name == "pwm2" or j % 2 == 0
+    n = sizes["big" if exact else "small"].pop()                   # sizes: shuffled pools of sizes not used yet in this process
+    lab = (FIRST_LABS_EXACT if exact else FIRST_LABS_RANDOM)[(j // 2 + (3 if name == "pwm2" else 0)) % 6]
+    loc, scale = round(rng.uniform(-20, 20), 2), round(10 ** rng.uniform(-0.5, 1.3), 3)
+    info = dict(case="firstuse", dist=kind, loc=loc, scale=scale, n=n, seed=rng.randint(0, 10 ** 6), exact=exact)
+    if kind == "wb":
+        info["shape"] = rng.choice([1.0, 1.5, 2.0, 3.0])
+        info["loc"] = 0.0 if (name == "pwm2" and exact) else max(loc, 0.1) if (name == "pwm2" or rng.random() < 0.5) else loc
+    integer = "int" in lab
+    quantum = scale / 1000.0 if exact else scale / 8.0 if integer else None
+    sc_units = 1000.0 if exact else 8.0 if integer else scale
+    a = rng.choice(A_POOL + ([2, 3] if integer else [2.0, 3.0]))
+    b = 0.0 if name == "pwm2" else float(round(rng.uniform(1, 10) * rng.choice([-1, 1]) * a * sc_units))
+    if isinstance(a, int):
+        b = int(b)
+    info2 = dict(loc=round(rng.uniform(-20, 20), 2), scale=round(10 ** rng.uniform(-0.5, 1.3), 3), seed=rng.randint(0, 10 ** 6),
+                 exact=exact, a=rng.choice(A_POOL))
+    if kind == "wb":
+        info2["shape"] = rng.choice([1.0, 1.5, 2.0, 3.0])
+        info2["loc"] = 0.0 if (name == "pwm2" and exact) else max(info2["loc"], 0.1) if name == "pwm2" else info2["loc"]
+    info2["b"] = 0.0 if name == "pwm2" else float(round(rng.uniform(1, 10) * rng.choice([-1, 1]) * info2["a"] * info2["scale"], 2))
+    entry = "class" if lab.startswith(("list", "tuple")) else rng.choice(["module", "class"])
+    return dict(info, container=lab, method=name, entry=entry, spelling=SPELLINGS[(j + j // 4) % 4], a=a, b=b, quantum=quantum,
+                order="float-first" if j % 5 == 4 else "given-first", second=info2)
 
 
 def app_series(inp, a=1.0, b=0.0, sign=1.0):
@@ -581,15 +852,35 @@ def gen_history(rng, kind, info, positive):
                 a = rng.choice(A_POOL)
                 cur = (a, 0.0 if name == "pwm2" else float(round(rng.uniform(-10, 10) * a * sc)))
         steps.append(dict(method=name, a=cur[0], b=cur[1], via=via))
+        if rng.random() < 0.4:
+            steps += gen_reject(rng, kind, names, cur, sc)
     # the same method twice in a row on different samples / the same sample, and a return to the first sample at the end
     m = rng.choice([n for n in names if n != "pwm2"])
     a = rng.choice(A_POOL)
     b = float(round(rng.uniform(-10, 10) * a * sc))
     tail = [dict(method=m, a=1.0, b=0.0, via="attr" if kind == "gm" else "class"),
-            dict(method=m, a=a, b=b, via="attr" if kind == "gm" else "class"),
-            dict(method=m, a=a, b=b, via="keep" if kind == "gm" else "module"),
-            dict(method=m, a=1.0, b=0.0, via="arg" if kind == "gm" else "class")]
+            dict(method=m, a=a, b=b, via="attr" if kind == "gm" else "class")] + \
+        gen_reject(rng, kind, names, (a, b), sc) + \
+        [dict(method=m, a=a, b=b, via="keep" if kind == "gm" else "module"),
+         dict(method=m, a=1.0, b=0.0, via="arg" if kind == "gm" else "class")]
     return steps + tail
+
+
+def gen_reject(rng, kind, names, cur, sc):
+    """one rejected request (handed a sample different from the current one a*x+b, cur = (a, b)), followed -- for a GumbelMin
+    object -- by a re-fit on the sample the object holds"""
+    name = rng.choice([n for n in names if n != "pwm2"])
+    why = rng.choice(GM_REJECTS if kind == "gm" else STATELESS_REJECTS + (("constant-sample",) if kind == "wb" and name == "msm" else ()))
+    a2 = rng.choice([t for t in A_POOL if t != cur[0]])
+    st = dict(method=name, via="reject", why=why, a=a2, b=cur[1] + float(round(rng.uniform(2, 10) * a2 * sc)) + 1.0)
+    if why.startswith("unknown-method"):
+        st["bad"] = rng.choice(BAD_NAMES[kind])
+    elif why == "method-not-a-string":
+        st["bad"] = rng.choice(["<None>", "<3>"])
+    if kind != "gm":
+        st["entry"] = "class" if why in ("unknown-method", "method-not-a-string") else rng.choice(["class", "module"])
+        return [st]
+    return [st, dict(method=rng.choice(names), a=cur[0], b=cur[1], via="keep")]
 
 
 def run(chk):
@@ -603,6 +894,53 @@ def run(chk):
                     "assumed; checked by evaluating the residual at the returned point",
                     "consistency (recovery of the parameters of an exact large sample) is a measurement on 10^4-point quantile samples"]
     rng = chk.rng
+    hung = set()
+
+    def judge(ev, inp, stream, limit=None):
+        if hung:                  # an earlier request never returned (reported): whatever it waits for would stop this thread too
+            chk.dist(stream.split(".")[0] + ":skipped-after-a-request-that-did-not-return")
+            return
+        try:
+            if limit is None:
+                res = ev(Q, inp)
+            else:
+                done, res = run_limited(lambda: ev(Q, inp), limit)
+                if not done:
+                    hung.add(stream)
+                    res = [("every fit request returns (a sequence of requests on the same object / module, some of them rejected, "
+                            "did not return within %g s)" % limit, "returns", "no return after %g s" % limit)]
+        except Exception as e:                                     # never a harness crash
+            res = [("evaluating the clauses must not raise (%s)" % stream, "fit", "%s: %s" % (type(e).__name__, e))]
+        if res is None:
+            chk.dist(stream + ":outside-estimator-domain")
+            return
+        chk.count(stream)
+        for oracle, exp, obs in res:
+            chk.fail(oracle, inp, exp, obs, method=inp.get("method"))
+
+    # ---- first use: sample sizes nothing else in this run uses, fitted first in an integer / list / float representation ----------
+    LIMIT = 10.0 if chk.quick else 60.0
+    corpus = core.load_corpus("C16")
+    for c in corpus:
+        if c.get("case") == "firstuse":
+            chk.dist("corpus.firstuse")
+            judge(eval_firstuse, c, "firstuse.corpus", LIMIT)
+    taken = {8, 20, 50, 120, 400, 10000} | {c.get("n") for c in corpus}
+    sizes = dict(small=[n for n in range(64, 300) if n not in taken], big=[n for n in range(300, 900) if n not in taken])
+    rng.shuffle(sizes["small"])
+    rng.shuffle(sizes["big"])
+    reps = 1 if chk.quick else 10
+    j = rng.randrange(12)
+    for _ in range(reps):
+        for kind in ("wb", "gu", "gm"):
+            for name in METHODS[kind]:
+                iterative = name in ("lse", "mle")
+                for _k in range(1 if iterative else 4 if kind == "wb" else 2):
+                    j += 1
+                    inp = gen_firstuse(rng, sizes, kind, name, j)
+                    chk.dist("firstuse.%s.%s.%s" % (inp["container"], "exact" if inp["exact"] else "random", inp["order"]))
+                    chk.nontriv("firstuse:%s:%s:%d" % (kind, name, inp["n"]))
+                    judge(eval_firstuse, inp, "firstuse.%s.%s" % (kind, name), LIMIT)
     drv = core.Driver()
     N = 40 if chk.quick else 400
     samples = []
@@ -815,6 +1153,7 @@ def run(chk):
     # ---- recovery of exact large samples (measurement) -----------------------------------------------------------------------------
     M = 3 if chk.quick else 20
     p = (np.arange(10000) + 0.5) / 10000
+    rec_done = []
     for _ in range(M):
         loc, scale, shape = round(rng.uniform(-5, 5), 2), round(10 ** rng.uniform(-0.3, 1), 3), rng.choice([1.5, 2.0, 3.0])
         for kind, d, fits, true in (("wb", Weibull(loc, scale, shape), methods["wb"], (loc, scale, shape)),
@@ -823,35 +1162,28 @@ def run(chk):
             x = d.invcdf(p=p)
             for name, f, k in fits:
                 chk.count("recovery.%s.%s" % (kind, name))
+                # the earlier requests of this measurement (same sample size, same process) belong to the failing input
+                rec_inp = dict(dist=kind, params=true, method=name, preceding=list(rec_done))
+                rec_done.append([kind, list(true), name])
                 try:
                     est = f(x)
                 except Exception as e:
-                    chk.fail("estimator must not raise on an exact sample", dict(dist=kind, params=true, method=name), "fit", type(e).__name__)
+                    chk.fail("estimator must not raise on an exact sample", rec_inp, "fit", type(e).__name__)
                     continue
                 tol = 0.03
                 if not (abs(est[0] - true[0]) <= tol * (scale + abs(true[0]) * 0.1) * 3 and abs(est[1] - true[1]) <= tol * scale * 3
                         and (k == 2 or abs(est[2] - true[2]) <= 3 * tol * true[2])):
                     chk.fail("every method recovers the parameters of a large exact sample (10^4 quantiles, 3-9 %%)",
-                             dict(dist=kind, params=true, method=name), list(true), [float(v) for v in est], method=name)
+                             rec_inp, list(true), [float(v) for v in est], method=name)
     # ---- the same sample in other representations; histories of fits on one object / sequences of calls ------------------------
-    def judge(ev, inp, stream):
-        try:
-            res = ev(Q, inp)
-        except Exception as e:                                     # never a harness crash
-            res = [("evaluating the clauses must not raise (%s)" % stream, "fit", "%s: %s" % (type(e).__name__, e))]
-        if res is None:
-            chk.dist(stream + ":outside-estimator-domain")
-            return
-        chk.count(stream)
-        for oracle, exp, obs in res:
-            chk.fail(oracle, inp, exp, obs, method=inp.get("method"))
-
-    for c in core.load_corpus("C16"):
+    for c in corpus:
+        if c.get("case") == "firstuse":
+            continue                                               # done at the start of the run
         chk.dist("corpus." + c.get("case", "?"))
         if c.get("case") == "container":
             judge(eval_container, c, "container.corpus")
         elif c.get("case") == "history":
-            judge(eval_history, c, "history.corpus")
+            judge(eval_history, c, "history.corpus", LIMIT)
         elif c.get("case") == "app":
             judge(eval_app, c, "app.corpus")
         elif c.get("case") == "signal":
@@ -887,7 +1219,7 @@ def run(chk):
         for _ in range(1 if chk.quick else 2):
             inp = dict(info, case="history", steps=gen_history(rng, kind, info, bool(np.all(x > 0))))
             chk.dist("history.%s.len%d" % (kind, len(inp["steps"])))
-            judge(eval_history, inp, "history." + kind)
+            judge(eval_history, inp, "history." + kind, LIMIT)
     # ---- application-level wrappers on containers of time series (mean level zero / large positive / large negative) ------------
     for i in range(14 if chk.quick else 90):
         inp = gen_app(rng, i)
@@ -909,12 +1241,41 @@ def replay(rp):
     from qats.stats.gumbel import Gumbel
     from qats.stats.gumbelmin import GumbelMin
     inp = rp["input"]
-    if inp.get("case") in ("container", "history", "app", "signal"):
-        res = dict(container=eval_container, history=eval_history, app=eval_app, signal=eval_signal)[inp["case"]](qmods(), inp)
+    if inp.get("case") in ("container", "history", "app", "signal", "firstuse"):
+        ev = dict(container=eval_container, history=eval_history, app=eval_app, signal=eval_signal, firstuse=eval_firstuse)[inp["case"]]
+        if inp["case"] in ("history", "firstuse"):                 # may contain rejected requests: never hang
+            done, res = run_limited(lambda: ev(qmods(), inp), 15.0)
+            if not done:
+                res = [("every fit request returns", "returns", "no return after 15 s")]
+        else:
+            res = ev(qmods(), inp)
         for oracle, exp, obs in res or []:
             print("FAILS: %s\n   expected %s\n   observed %s" % (oracle, exp, obs))
         print("replay: %d failing clause(s)" % len(res or []))
         return 1 if res else 0
+    if "seed" not in inp and "params" in inp:                      # recovery measurement on 10^4 exact quantiles
+        true, name = tuple(inp["params"]), inp["method"]
+        classes, mods = dict(wb=Weibull, gu=Gumbel, gm=GumbelMin), dict(wb=weibull, gu=gumbel, gm=gumbelmin)
+        pp = (np.arange(10000) + 0.5) / 10000
+        for k0, t0, n0 in inp.get("preceding", []):                # the requests made before it in the same measurement
+            try:
+                with np.errstate(all="ignore"):
+                    getattr(mods[k0], n0)(classes[k0](*t0).invcdf(p=pp))
+            except Exception:                                      # noqa
+                pass
+        x = classes[inp["dist"]](*true).invcdf(p=pp)
+        try:
+            with np.errstate(all="ignore"):
+                est = [float(v) for v in getattr(mods[inp["dist"]], name)(x)]
+        except Exception as e:                                     # noqa
+            print("FAILS: estimator must not raise on an exact sample: %s: %s" % (type(e).__name__, e))
+            return 1
+        scale = true[1]
+        ok = abs(est[0] - true[0]) <= 0.09 * (scale + abs(true[0]) * 0.1) and abs(est[1] - true[1]) <= 0.09 * scale \
+            and (len(true) == 2 or abs(est[2] - true[2]) <= 0.09 * true[2])
+        print("%s of 10^4 exact quantiles: true %s, estimated %s" % (name, list(true), est))
+        print("replay: %d failing clause(s)" % (0 if ok else 1))
+        return 0 if ok else 1
     if "seed" not in inp:
         print("replay of recovery measurement: re-run ./check C16 thorough")
         return 1
